@@ -38,7 +38,9 @@ def from_py(cls, c):
     out = {}
     for k, v in c.items():
         if k == "bpdu":
-            out[k] = [from_py(cls, x) for x in v]
+            # (more than 8 batched parts are never encoded here; a longer decoded list is wrong anyway -
+            #  cap it so that one faulty decode cannot blow up the trace file)
+            out[k] = [from_py(cls, x) for x in v[:12]]
         elif isinstance(v, (bytes, bytearray)):
             out[RENAME.get(k, k)] = list(v)
         else:
@@ -72,7 +74,9 @@ def encode(cls, vals):
 def rand_part(rng, rx, batched, ver):
     mod = rng.choice(sorted(MODLEN))
     nope = 1 if rng.random() < 0.15 else 0
-    n = MODLEN[mod] * GB
+    if nope and rng.random() < 0.5:
+        mod = rng.randrange(16)          # the modulation bits of a NOPE part are meaningless, any value
+    n = MODLEN.get(mod, 0) * GB
     bits = [] if nope else ([rng.randrange(255) for _ in range(n)] if rx else [rng.getrandbits(1) for _ in range(n)])
     p = dict(tn=rng.randrange(8), batch=rng.getrandbits(1), trxn=rng.randrange(64), nope=nope, mod=mod, tsc=rng.randrange(8))
     if rx:
